@@ -223,8 +223,8 @@ def do_large_array(v0, v1, v2, budget):
 
 
 for _i, _n in ((0, 5), (3, 4), (2, 1), (1, 0), (4, 1), (5, 1)):
-    define(globals(), 'C14', 'unconnected_multiread_%d_%d' % (_i, _n), AV + ['b0', 's0'], "return do_multiread([%s], b0, 7, %d, %d, s0)" % (", ".join(AV), _i, _n),
-           [APRE, '-2**31 <= b0 < 2**31 and -128 <= s0 <= 127'], tier='quick' if (_i, _n) in ((0, 5), (3, 4)) else 'thorough',
+    define(globals(), 'C14', 'unconnected_multiread_%d_%d' % (_i, _n), ['a0', 'a4', 'b0'], "return do_multiread([a0, 2, 3, 4, a4], b0, 7, %d, %d, -5)" % (_i, _n),
+           ['-32768 <= a0 <= 32767 and -32768 <= a4 <= 32767 and -2**31 <= b0 < 2**31'], tier='quick' if (_i, _n) in ((0, 5), (3, 4)) else 'thorough',
            timeout=3000, path_timeout=600, drives=DRIVES, stubs=STUBS,
            bounds='reference-encoded unconnected bundled multi-tag read [A[%d] x %d (%s), B, unknown tag, S] with symbolic tag contents; every embedded reply decoded by '
                   'the reference decoder carries the values of the array model / the documented error status' % (_i, _n, 'valid' if _n >= 1 and _i + _n <= N else 'beyond the end / empty'),
